@@ -1497,6 +1497,10 @@ func (r *Raft) appendEntries(rpc RPC, a *AppendEntriesRequest) {
 		var prevLogTerm uint64
 		if a.PrevLogEntry == lastIdx {
 			prevLogTerm = lastTerm
+		} else if snapIdx, snapTerm := r.getLastSnapshot(); a.PrevLogEntry == snapIdx {
+			// The entry at the snapshot boundary may have been compacted away
+			// while later entries were kept.
+			prevLogTerm = snapTerm
 		} else {
 			var prevLog Log
 			if err := r.logs.GetLog(a.PrevLogEntry, &prevLog); err != nil {
@@ -1965,9 +1969,29 @@ func (r *Raft) installSnapshot(rpc RPC, req *InstallSnapshotRequest) {
 	if mlogs, ok := r.logs.(MonotonicLogStore); ok && mlogs.IsMonotonic() {
 		if err := r.removeOldLogs(); err != nil {
 			r.logger.Error("failed to reset logs", "error", err)
+		} else {
+			// The log store is empty now: the snapshot is our last entry.
+			r.setLastLog(0, 0)
 		}
-	} else if err := r.compactLogs(req.LastLogIndex); err != nil {
-		r.logger.Error("failed to compact logs", "error", err)
+	} else {
+		// Entries from the snapshot index on only agree with the snapshot if the
+		// log holds the snapshot's last entry with the same term. Otherwise they
+		// are a stale tail: drop it, or the leader's next AppendEntries (previous
+		// entry = snapshot index) is checked against that tail, rejected, and
+		// the same snapshot is sent again for ever.
+		if lastLogIdx, _ := r.getLastLog(); lastLogIdx >= req.LastLogIndex {
+			var lastIncluded Log
+			if err := r.logs.GetLog(req.LastLogIndex, &lastIncluded); err != nil || lastIncluded.Term != req.LastLogTerm {
+				if err := r.logs.DeleteRange(req.LastLogIndex, lastLogIdx); err != nil {
+					r.logger.Error("failed to clear log suffix", "error", err)
+				} else {
+					r.setLastLog(0, 0)
+				}
+			}
+		}
+		if err := r.compactLogs(req.LastLogIndex); err != nil {
+			r.logger.Error("failed to compact logs", "error", err)
+		}
 	}
 
 	r.logger.Info("Installed remote snapshot")
